@@ -105,6 +105,10 @@ UNITS.append(flow.Unit('sdrz', groups=['sdrz'], props=['props/C02_sdrz.v'], cust
                             'progress (theorem on regenerated definitions); also positivity / compression (C17) and c^2 = gamma p / rho (C03)'))
 
 
+import ehep_corr as EHC
+UNITS.append(flow.Unit('ehep-front', groups=['ehep'], props=['props/C02_ehep.v'], custom_corr=EHC.unit_corr, oracle=EHC.oracle,
+                       note='detonation front of the EHEP problem: CJ state, mass / momentum across the front, sonic condition (energy needs the unreturned heat of '
+                            'reaction); also EOS of all regions (C03), self-similarity of region I (C10), non-negativity (C17)'))
 import piston_corr as PC
 UNITS.append(flow.Unit('ep-piston', groups=['piston'], props=['props/C02_piston.v'], custom_corr=PC.unit_corr, oracle=PC.oracle,
                        note='elastic precursor (any density at yield) and plastic wave (EVERY plastic wave speed) satisfy the jump conditions with the total stress '
